@@ -175,6 +175,69 @@ theorem arithmetic_number_enc_independent (f : ℚ → ℚ → ℚ) (a : ℚ) (g
   simp only
   exact opnum_ragged f a g r
 
+/-! ## The mean, the Gram matrix and the covariance end to end (smoother = parameter) -/
+
+/-- The pooled samples handed to the mean smoother — binned to per-point averages when
+`approx` and more than 2000 samples are pooled — do not depend on the encoding: the size
+switch is decided on the OBSERVED samples in both. -/
+theorem mean_pooling_enc_independent (approx : Bool) (g : List ℚ) (rows : List Row) :
+    meanInputs approx (toLongNaN 0 (rows.map (encNaN g))) =
+      meanInputs approx (toLongRag 0 (rows.map (encRagged g))) := by
+  rw [to_long_enc_independent]
+
+/-- Hence the estimated mean, for every smoother `S` (local polynomials, P-splines,
+interpolation) and every evaluation grid `d`. -/
+theorem mean_enc_independent (S : List (ℚ × ℚ) → List ℚ → List ℚ) (approx : Bool) (d g : List ℚ)
+    (rows : List Row) :
+    meanNaN S approx d (rows.map (encNaN g)) = meanRag S approx d (rows.map (encRagged g)) := by
+  unfold meanNaN meanRag
+  rw [mean_pooling_enc_independent]
+
+/-- Binning is the identity when every pooled point is observed once (strictly increasing
+pooled abscissae, e.g. a single curve): the `approx` branch then changes nothing. -/
+theorem binning_identity (long : List (ℚ × ℕ × ℚ))
+    (hs : (long.map fun r => r.1).Pairwise (· < ·)) (approx : Bool) :
+    meanInputs approx long = long.map fun r => (r.1, r.2.2) := by
+  unfold meanInputs
+  split
+  · exact binned_of_sorted long hs
+  · rfl
+
+/-- `inner_product` end to end (estimate the mean with any smoother, centre, interpolate,
+dense Gram matrix) is encoding independent. -/
+theorem inner_product_enc_independent (S : List (ℚ × ℚ) → List ℚ → List ℚ) (approx : Bool)
+    (g : List ℚ) (rows : List Row) (σ2 : ℚ) (i k : ℕ)
+    (hS : ∀ inp, (S inp g).length = g.length)
+    (hlen : ∀ r ∈ rows, r.length = g.length) (hnd : g.Nodup) :
+    innerProductNaN S approx g (rows.map (encNaN g)) σ2 i k =
+      innerProductRag S approx g (rows.map (encRagged g)) σ2 i k := by
+  unfold innerProductNaN innerProductRag
+  rw [mean_enc_independent]
+  exact gram_enc_independent g _ rows σ2 i k hlen (hS _) hnd
+
+/-- `covariance(smooth=False)` end to end (estimate the mean, centre, pairwise-complete
+averages of products) is encoding independent. -/
+theorem covariance_enc_independent (S : List (ℚ × ℚ) → List ℚ → List ℚ) (approx : Bool)
+    (g : List ℚ) (rows : List Row) (j k : ℕ)
+    (hS : ∀ inp, (S inp g).length = g.length)
+    (hlen : ∀ r ∈ rows, r.length = g.length) (hnd : g.Nodup) :
+    covarianceNaN S approx g (rows.map (encNaN g)) j k =
+      covarianceRag S approx g (rows.map (encRagged g)) j k := by
+  unfold covarianceNaN covarianceRag covNaN covRag
+  rw [mean_enc_independent]
+  congr 1
+  simp only [List.map_map]
+  apply List.map_congr_left
+  intro r hr
+  simp only [Function.comp, onGridNaN]
+  rw [center_enc_independent g _ r (hlen r hr) (by unfold meanRag; exact hS _) hnd]
+
+/-- Interpolation smoothing is linear in the values (same sampling points). -/
+theorem interp_linear (c : List (ℚ × ℚ × ℚ)) (a b x : ℚ) :
+    interp (c.map fun p => (p.1, a * p.2.1 + b * p.2.2)) x =
+      a * interp (c.map fun p => (p.1, p.2.1)) x + b * interp (c.map fun p => (p.1, p.2.2)) x :=
+  FDA.Irr.interp_linear c a b x
+
 /-! ## Complete data coincide with the dense twin -/
 
 /-- `np.interp` returns the sample at a sample point (strictly increasing abscissae). -/
@@ -271,6 +334,38 @@ theorem complete_cov (Xs : List (List ℚ)) (j k : ℕ)
     simp
   · rw [if_neg h0]
 
+/-- … with the exact factor: for complete CENTRED data the raw covariance of the irregular
+class is `(n−1)/n` times the covariance of the dense class (`Xcᵀ Xc / (n−1)`). -/
+theorem complete_cov_dense (N m : ℕ) (X : ℕ → ℕ → ℚ) (j k : ℕ) (hj : j < m) (hk : k < m)
+    (hN : 2 ≤ N) :
+    covRaw ((List.range N).map fun i => (List.range m).map fun p => some (center N X i p)) j k =
+      ((N : ℚ) - 1) / N * covDense N X j k := by
+  have h := complete_cov ((List.range N).map fun i => (List.range m).map fun p => center N X i p) j k
+    (by
+      intro xs hxs
+      obtain ⟨i, _, rfl⟩ := List.mem_map.mp hxs
+      simp [hj, hk])
+  simp only [List.map_map] at h
+  have e : (fun xs : List ℚ => xs.map some) ∘ (fun i => (List.range m).map fun p => center N X i p) =
+      fun i => (List.range m).map fun p => some (center N X i p) := by
+    funext i; simp [Function.comp]
+  rw [e] at h
+  rw [h]
+  have e2 : ((fun xs : List ℚ => xs.getD j 0 * xs.getD k 0) ∘ fun i => (List.range m).map fun p => center N X i p) =
+      fun i => center N X i j * center N X i k := by
+    funext i
+    simp [Function.comp, List.getD_eq_getElem?_getD, hj, hk]
+  rw [e2, sum_map_range]
+  unfold covDense
+  have h1 : (N : ℚ) ≠ 0 := by
+    have : (2 : ℚ) ≤ N := by exact_mod_cast hN
+    linarith
+  have h2 : (N : ℚ) - 1 ≠ 0 := by
+    have : (2 : ℚ) ≤ N := by exact_mod_cast hN
+    intro h; linarith
+  simp only [List.length_map, List.length_range]
+  field_simp
+
 /-- … and the Gram matrix does not depend on the (smoothed) mean that was subtracted
 first: centring twice is centring once.  On complete data `inner_product` therefore
 returns the dense Gram matrix of the exactly centred curves. -/
@@ -363,5 +458,15 @@ example : nanDot [1, 1, 1] ((lpInputsNaNOld (encNaN [0, 1, 3] [some 1, none, som
 /-- `interp` between and outside the samples (the model of `np.interp`). -/
 example : interp [(0, 1), (3, 3)] 1 = 5 / 3 ∧ interp [(0, 1), (3, 3)] (-1) = 1 ∧ interp [(0, 1), (3, 3)] 7 = 3 := by
   norm_num [interp]
+
+/-- `binning_identity`: strictly increasing pooled abscissae (one curve). -/
+example : (([(0, 0, 1), (1, 0, 4), (3, 0, 2)] : List (ℚ × ℕ × ℚ)).map fun r => r.1).Pairwise (· < ·) := by
+  norm_num
+
+/-- `inner_product_enc_independent` / `covariance_enc_independent`: a smoother returning one value
+per evaluation point (here the pooled average everywhere) meets `hS`. -/
+example : ∀ inp : List (ℚ × ℚ), ((fun (inp : List (ℚ × ℚ)) (d : List ℚ) =>
+    d.map fun _ => (inp.map Prod.snd).sum / inp.length) inp [0, 1, 3]).length = ([0, 1, 3] : List ℚ).length := by
+  intro inp; simp
 
 end C15
